@@ -25,6 +25,13 @@ Sig(g, file, s, deps) ==
      IF g.steps[s].hasrsp THEN <<g.steps[s].rsp, g.steps[s].rspc>> ELSE <<>>,
      Stamp(file, g.steps[s].outs) >>
 
+\* What `-d explain` lists as hashed (hash.rs build_manifest through ExplainHash): the same data,
+\* except that of the response file only the path is shown in clear (its content as a hash).
+SigShown(g, file, s, deps) ==
+  << Stamp(file, g.steps[s].ins), Stamp(file, deps), g.steps[s].cmd,
+     IF g.steps[s].hasrsp THEN <<g.steps[s].rsp>> ELSE <<>>,
+     Stamp(file, g.steps[s].outs) >>
+
 MissingOf(g, file, s, deps) ==
   {f \in DirtyIns(g, s) \cup Range(deps) \cup Outs(g, s) : MT(file, f) = 0}
 
